@@ -128,8 +128,9 @@ func psText(v postscript.Object, depth int) string {
 	return fmt.Sprintf("-%T-", v)
 }
 
-func plrmOpTable(o *suiteOut) {
+func plrmOpTable(o *suiteOut, p *progSuite) {
 	for _, c := range plrmOpCases {
+		p.run(100000, false, c.prog) // also against the model
 		line := runCaseLine(100000, false, c.prog)
 		_, intp, class := runProgram(100000, false, []byte(c.prog))
 		got := class
